@@ -706,21 +706,82 @@ func c15R3R4(p *core.Program, r *core.Report, evalCWV, numCmp, dateCmp, textCmp 
 		c, ok := v.(*ssa.Call)
 		return ok && c.Call.IsInvoke() && c.Call.Method.Name() == "Type"
 	}
-	core.EachInstr(qv, false, func(_ *ssa.Function, in ssa.Instruction) {
-		mi, ok := in.(*ssa.MakeInterface)
-		if !ok {
-			return
-		}
-		for _, ce := range core.ControllingConds(mi.Block()) {
-			bo, ok := ce.Cond.(*ssa.BinOp)
-			if !ok || bo.Op != token.EQL || !ce.Taken || !fieldTypeCall(bo.X) {
-				continue
+	// per field type: every way out of QueryValue, with the tests on field.Type() decided for that type (this also
+	// covers values returned after the type switch, which belong to every type that falls through to them)
+	for _, ft := range fieldTypes {
+		ft := ft
+		core.ExplorePaths(qv, core.PathRules{
+			OnBranch: func(s *core.PathState, cond ssa.Value) core.AB { return decideConstEq(cond, fieldTypeCall, ft) },
+			OnExit: func(s *core.PathState, ret *ssa.Return, pan *ssa.Panic) {
+				if ret == nil || len(ret.Results) != 1 {
+					return
+				}
+				rv := ret.Results[0]
+				for k := 0; k < 4; k++ {
+					phi, ok := rv.(*ssa.Phi)
+					if !ok {
+						break
+					}
+					in := pathIncoming(s, phi)
+					if in == nil {
+						break
+					}
+					rv = in
+				}
+				if mi, ok := rv.(*ssa.MakeInterface); ok {
+					addProduced("field:"+ft, core.ShortType(mi.X.Type()))
+				}
+			},
+		})
+	}
+	// presence guards: where a value of the contact is supplied only under a test, the test looks at the same field
+	// of the contact as the value comes from (the empty-value forms `x = ""` / `x != ""` test absence / presence of x)
+	{
+		recvFields := func(v ssa.Value) map[string]bool {
+			out := map[string]bool{}
+			for w := range core.BackSlice(v, func(*ssa.Call) bool { return true }) {
+				if fa, ok := w.(*ssa.FieldAddr); ok && len(qp.Params) > 0 && fa.X == ssa.Value(qp.Params[0]) {
+					out[core.FieldAddrVar(fa).Name()] = true
+				}
 			}
-			if s, ok := core.ConstString(bo.Y); ok {
-				addProduced("field:"+s, core.ShortType(mi.X.Type()))
-			}
+			return out
 		}
-	})
+		nG := 0
+		core.EachInstr(qp, false, func(_ *ssa.Function, in ssa.Instruction) {
+			mi, ok := in.(*ssa.MakeInterface)
+			if !ok || core.ShortType(mi.Type()) != "any" {
+				return
+			}
+			vf := recvFields(mi.X)
+			if len(vf) == 0 {
+				return
+			}
+			for _, ce := range core.ControllingConds(mi.Block()) {
+				bo, ok := ce.Cond.(*ssa.BinOp)
+				if !ok || (bo.Op != token.EQL && bo.Op != token.NEQ) {
+					continue
+				}
+				if bo.X == ssa.Value(keyP) || bo.X == ssa.Value(typeP) || bo.Y == ssa.Value(keyP) || bo.Y == ssa.Value(typeP) {
+					continue
+				}
+				cf := recvFields(bo)
+				if len(cf) == 0 {
+					continue
+				}
+				nG++
+				shared := false
+				for f := range cf {
+					if vf[f] {
+						shared = true
+					}
+				}
+				r.Check(shared, "R3", "QueryProperty/presence-guard/"+strings.Join(core.SortedKeys(vf), "+"), p.Pos(mi.Pos()), "the guard tests "+strings.Join(core.SortedKeys(cf), "+")+", the value comes from "+strings.Join(core.SortedKeys(vf), "+"),
+					fmt.Sprintf("the contact's %s is supplied to the query evaluator depending on a test of its %s: whether `%s = \"\"` / `!= \"\"` holds then depends on another property, and a set value can be withheld while an unset one is supplied as an empty string", strings.Join(core.SortedKeys(vf), "+"), strings.Join(core.SortedKeys(cf), "+"), strings.Join(core.SortedKeys(vf), "+")))
+				break
+			}
+		})
+		r.Require("presence_guards", nG, 3)
+	}
 	nP := 0
 	for _, sit := range core.SortedKeys(produced) {
 		var ft string
